@@ -459,6 +459,79 @@ def body_larger(ctx, kind, check='values'):
                   'face: every selected cell is still present, with its value (tall grid, clip near row 255)')
         ctx.check(len(out.ems.polygons) == len(rows) * len(cols) and all(p.symmetric_difference(ref[j * nx + i]).area <= 1e-12 for p, (j, i) in zip(out.ems.polygons, [(j, i) for j in rows for i in cols])),
                   'each selected cell has exactly its original polygon')
+    elif kind.startswith('narrow-'):
+        # quadrilateral meshes whose tables are stored in narrow integer types, with enough nodes that indexes come
+        # close to the limits of the type (int8 with more than 100 surviving nodes, int16 with a few hundred nodes)
+        import os
+        import xarray
+        _, rows_, cols_, fdt, edt, keep_rows = kind.split('-')
+        rows_, cols_, keep_rows = int(rows_), int(cols_), int(keep_rows)
+        node = numpy.arange(rows_ * cols_).reshape(rows_, cols_)
+        yy, xx = numpy.meshgrid(numpy.arange(rows_, dtype=float), numpy.arange(cols_, dtype=float), indexing='ij')
+        face_node = numpy.array([[node[r, c], node[r, c + 1], node[r + 1, c + 1], node[r + 1, c]] for r in range(rows_ - 1) for c in range(cols_ - 1)])
+        edges = []
+        for r in range(rows_):
+            for c in range(cols_):
+                if c + 1 < cols_:
+                    edges.append([node[r, c], node[r, c + 1]])
+                if r + 1 < rows_:
+                    edges.append([node[r + 1, c], node[r, c]])
+        edge_node = numpy.array(edges)
+        ds = xarray.Dataset({
+            'mesh': xarray.DataArray(0, attrs={'cf_role': 'mesh_topology', 'topology_dimension': 2, 'node_coordinates': 'node_x node_y',
+                                               'face_node_connectivity': 'face_node', 'edge_node_connectivity': 'edge_node',
+                                               'face_dimension': 'face', 'edge_dimension': 'edge'}),
+            'face_node': xarray.DataArray(face_node.astype(fdt), dims=['face', 'max_node'], attrs={'cf_role': 'face_node_connectivity', 'start_index': 0}),
+            'edge_node': xarray.DataArray(edge_node.astype(edt), dims=['edge', 'Two'], attrs={'cf_role': 'edge_node_connectivity', 'start_index': 0}),
+            'node_x': xarray.DataArray(xx.ravel(), dims=['node'], attrs={'units': 'degrees_east'}),
+            'node_y': xarray.DataArray(yy.ravel(), dims=['node'], attrs={'units': 'degrees_north'}),
+            'eta': xarray.DataArray(numpy.arange(len(face_node), dtype=float), dims=['face']),
+            'flux': xarray.DataArray(numpy.arange(len(edge_node), dtype=float), dims=['edge']),
+            'depth': xarray.DataArray(numpy.arange(rows_ * cols_, dtype=float), dims=['node']),
+        }, attrs={'Conventions': 'UGRID-1.0'})
+        from emsarray.conventions.ugrid import UGrid
+        cv = UGrid(ds)
+        box = shapely.box(-1, -1, cols_ + 1, keep_rows - 0.5)
+        kept_faces = [f for f in range(len(face_node)) if f // (cols_ - 1) < keep_rows]
+        kept_nodes = sorted({int(n) for f in kept_faces for n in face_node[f]})
+        side_sets = {frozenset((int(a), int(b))) for f in kept_faces for a, b in zip(face_node[f], numpy.roll(face_node[f], -1))}
+        kept_edges = [e for e in range(len(edge_node)) if frozenset(int(x) for x in edge_node[e]) in side_sets]
+        with clipcommon.work_dir(ctx) as wd:
+            try:
+                out = cv.clip(box, wd).load()
+                back = None
+                if not ctx.symbolic:
+                    target = os.path.join(wd, 'narrow-out.nc')
+                    out.ems.to_netcdf(target)
+                    back = xarray.open_dataset(target).load()
+                    back.close()
+            except Exception as e:
+                ctx.check(False, f'clipping, saving and reopening a valid dataset succeeds ({type(e).__name__})')
+                return
+        for tag, res in ((('', out), (' (reopened)', back)) if back is not None else (('', out),)):
+            ctx.check([float(v) for v in res['eta'].values] == [float(f) for f in kept_faces], 'face: every selected cell is still present, with its value' + tag)
+            ctx.check([float(v) for v in res['flux'].values] == [float(e) for e in kept_edges], 'edge: exactly the selected elements remain, in their original relative order' + tag)
+            ctx.check([float(v) for v in res['depth'].values] == [float(n) for n in kept_nodes], 'node: exactly the selected elements remain, in their original relative order' + tag)
+            nx_, ny_ = numpy.asarray(res['node_x'].values, dtype=float), numpy.asarray(res['node_y'].values, dtype=float)
+            fn = numpy.ma.masked_invalid(numpy.asarray(res['face_node'].values, dtype=float))
+            fv = res['face_node'].attrs.get('_FillValue', res['face_node'].encoding.get('_FillValue'))
+            ok = fn.shape == (len(kept_faces), 4)
+            if ok:
+                for row, f in zip(fn, kept_faces):
+                    vals = [int(v) for v in row.compressed() if fv is None or int(v) != int(fv)]
+                    want = [(float(xx.ravel()[n]), float(yy.ravel()[n])) for n in face_node[f]]
+                    ok = ok and len(vals) == 4 and all(0 <= v < len(nx_) for v in vals) and [(float(nx_[v]), float(ny_[v])) for v in vals] == want
+            ctx.check(ok, 'each selected cell has exactly its original polygon (face-node table of the result against the original corners)' + tag)
+            en = numpy.asarray(res['edge_node'].values, dtype=float)
+            ok = en.shape == (len(kept_edges), 2) and not numpy.isnan(en).any()
+            if ok:
+                for row, e in zip(en, kept_edges):
+                    vals = [int(v) for v in row]
+                    want = [(float(xx.ravel()[n]), float(yy.ravel()[n])) for n in edge_node[e]]
+                    ok = ok and all(0 <= v < len(nx_) for v in vals) and (fv is None or all(v != int(fv) for v in vals) or True) and [(float(nx_[v]), float(ny_[v])) for v in vals] == want
+            ctx.check(ok, 'the edges of the result join the same two points as the original edges they come from' + tag)
+        ctx.check(len(out.ems.polygons) == len(kept_faces) and all(p is not None and p.symmetric_difference(cv.polygons[f]).area <= 1e-12 for p, f in zip(out.ems.polygons, kept_faces)),
+                  'each selected cell has exactly its original polygon')
     else:
         n = 65540 // 2
         # a closed ring: inner nodes 0..n-1, outer nodes n..2n-1, two triangles per sector
@@ -490,7 +563,7 @@ def body_larger(ctx, kind, check='values'):
 
 def cases(tier, check='values'):
     q = tier == 'quick'
-    for kind in ('tall-grid', 'ring-65540'):
+    for kind in ('tall-grid', 'ring-65540', 'narrow-2-54-int8-int8-1', 'narrow-3-40-int8-int16-1', 'narrow-13-14-int32-int16-2', 'narrow-16-17-int16-int16-2', 'narrow-16-17-int16-int16-9'):
         yield Case(f'{check}:larger:{kind}', body_larger, dict(kind=kind, check=check), patches=_patches, max_paths=4)
     grids = [('cf1d', (2, 3), True), ('cf2d', (2, 2), True), ('shoc_simple', (2, 2), False), ('shoc_standard', (2, 2), True)]
     if not q:
